@@ -61,6 +61,12 @@ impl PathBuf {
         ensures self.abs_clean() && self@.len() == 0 ==> r is Err && r->Err_0.kind == ErrKind::ParentNotFound,
                 self.abs_clean() && self@.len() > 0 ==> r is Ok && r->Ok_0@ == self@.drop_last() && r->Ok_0.abs_clean() && r->Ok_0.comps() == abs_comps(self@.drop_last()),
     { unimplemented!() }
+    // std Path::parent on an absolute clean path: None for the root, otherwise the path without its last name
+    #[verifier::external_body]
+    pub fn parent(&self) -> (r: Option<&PathBuf>)
+        ensures self.abs_clean() && self@.len() == 0 ==> r is None,
+                self.abs_clean() && self@.len() > 0 ==> r is Some && r->Some_0@ == self@.drop_last() && r->Some_0.abs_clean() && r->Some_0.comps() == abs_comps(self@.drop_last()),
+    { unimplemented!() }
     #[verifier::external_body]
     pub fn base(&self) -> (r: RvResult<NameStr>)
         ensures self.abs_clean() && self@.len() > 0 ==> r is Ok && r->Ok_0@ == self@.last(),
